@@ -13,9 +13,9 @@ PFIELDS = ["tokens", "currentPos", "currentToken", "depth", "ctx", "positions", 
 TFIELDS = ["input", "pos", "lineStart", "lineStarts", "line", "keywords", "dialect", "logger", "configured", "loc", "Comments"]
 POP = {"parse": "OParse", "parse_raw_empty": "OParse", "parse_raw_nil": "OParse", "parse_noeof": "OParse", "parsepos": "OParsePos",
        "parsectx": "OParseCtx", "recover": "ORecover", "recoverpos": "ORecoverPos", "apply": "OApply", "reset": "OReset",
-       "release": "ORelease", "putget": "OPutGet"}
+       "release": "ORelease", "putget": "OPutGet", "putget_other": "OPutGet"}
 TOP = {"tokenize": "OTokenize", "toolarge": "OTokenize", "tokenizectx": "OTokenizeCtx", "toolargectx": "OTokenizeCtx",
-       "setdialect": "OSetDialect", "setlogger": "OSetLogger", "reset": "OTReset", "putget": "OTPutGet"}
+       "setdialect": "OSetDialect", "setlogger": "OSetLogger", "reset": "OTReset", "putget": "OTPutGet", "putget_other": "OTPutGet"}
 
 PARSE_CALLS = ["parse", "parsepos", "parsectx", "recover", "recoverpos"]
 CTX_MODES = ["bg", "bg", "cancelled", "deadline", "poll:1", "poll:2", "poll:3", "poll:5", "polld:2", "poll:9"]
@@ -95,7 +95,7 @@ def parser_op(rng, index):
     if r < 0.80:
         opt = rng.choice(["strict", "dialect:mysql", "dialect:mysql", "dialect:postgresql", "strict,dialect:mysql", "dialect:" + rng.choice(DIALECTS)])
         return {"op": "apply", "in": -1, "opt": opt}
-    return {"op": rng.choice(["reset", "release", "putget", "putget"]), "in": -1}
+    return {"op": rng.choice(["reset", "release", "putget", "putget", "putget_other"]), "in": -1}
 
 
 def tok_call(rng, index):
@@ -114,7 +114,7 @@ def tok_op(rng, index):
         return {"op": "setdialect", "in": -1, "opt": "dialect:" + rng.choice(DIALECTS)}
     if r < 0.82:
         return {"op": "setlogger", "in": -1, "opt": rng.choice(["logger:on", "logger:off"])}
-    return {"op": rng.choice(["reset", "putget", "putget"]), "in": -1}
+    return {"op": rng.choice(["reset", "putget", "putget", "putget_other"]), "in": -1}
 
 
 API_CALLS = ["gosqlx.Parse", "gosqlx.ParseWithContext", "gosqlx.Validate", "gosqlx.ParseMultiple", "gosqlx.ParseWithRecovery",
@@ -151,7 +151,7 @@ def gen_histories(rng, index, n_random, trace_every):
                         o["ctx"] = ctx
                     dirty_ops.append([o])
     for opt in ["strict", "dialect:mysql", "strict,dialect:mysql"]:
-        for b in ["reset", "release", "putget"]:
+        for b in ["reset", "release", "putget", "putget_other"]:
             dirty_ops.append([{"op": "apply", "in": -1, "opt": opt}, {"op": b, "in": -1}])
             dirty_ops.append([{"op": "apply", "in": -1, "opt": opt}, {"op": "parsepos", "in": index["invalid"][2]}, {"op": b, "in": -1}])
         dirty_ops.append([{"op": "apply", "in": -1, "opt": opt}])
@@ -465,7 +465,7 @@ def run(tier):
     stale = check_witnesses(rp)
 
     nontrivial = sum(1 for o in outs if o.get("probe_class") and len(hs_by_id[o["id"]]["ops"]) > 0)
-    reused = sum(1 for h in hs for o in h["ops"] if o["op"] == "putget")
+    reused = sum(1 for h in hs for o in h["ops"] if o["op"] in ("putget", "putget_other"))
     rp.cov["evaluations"] = len(outs)
     rp.cov["distinct_nontrivial"] = len({json.dumps([h["kind"], h["ops"], h["probe"]], sort_keys=True) for h in hs if h["ops"]})
     rp.cov["rule"] = ("a case is one operation history on one real instance followed by a probe call compared with the same call on a new instance carrying the current holder's options; "
